@@ -9,6 +9,16 @@ _cffi_backend.FFI() (parse_c_type.c), `typedef <name> t_k;` in an out-of-line
 ABI module and in a compiled API module (PRIMITIVE_TO_INDEX -> primitive_name[]),
 and new_primitive_type() directly.  All must give the same ctype object and the
 compiler's facts; the tables are also compared as data, index by index.
+
+Beyond the name -> ctype matrix, the facts are observed through every consumer
+that has its own copy of them: sizeof/alignof through each entry point (type
+string on all four FFI objects, ctype object, cast cdata, array cdata), the
+kind predicates of model.PrimitiveType (what the code generators branch on),
+and the libffi type new_primitive_type() stores next to size/alignment/flags:
+each table type is passed to and returned from gcc-compiled functions through
+a libffi call (identity T f(T); and long long f(long long) called as
+long long f(T), which shows how the argument is widened).  The index sweep
+also feeds negative and far-out-of-range primitive indexes.
 """
 import os, sys, json, itertools, subprocess, re
 import concurrent.futures as cf
@@ -20,15 +30,26 @@ RULE = ("the complete name set, no sampling: every key of ALL_PRIMITIVE_TYPES, P
         "float/double/long double _Complex: 99 spellings), plus the hostile neighbourhood: every sequence of "
         "<= 3 (thorough: 4) of the 10 specifier keywords, every sequence of <= 4 of the 6 integer "
         "keywords (thorough: <= 5, with double), and every one-character substitution/insertion (by 'x', '1'; thorough also '_', "
-        "'t'), deletion and doubling in each table identifier; case = (name, resolution path); distinct = (name, path); non-trivial = the name is "
-        "accepted by gcc or by at least one cffi path; the seed only permutes the order of names and paths")
+        "'t'), deletion, doubling and letter-case change in each table identifier and each specifier keyword; case = (name, resolution path); distinct = (name, path); non-trivial = the name is "
+        "accepted by gcc or by at least one cffi path; the seed only permutes the order of names and paths; "
+        "per table type additionally: libffi calls into a gcc-built library (identity and widening, boundary values "
+        "and a distinct-bytes pattern), the model.PrimitiveType predicates, sizeof/alignof through 4 FFI objects x "
+        "(string, ctype, cdata) and the backend functions; primitive indexes -0x800000, -4..-1, 0.._NUM_PRIM+3, "
+        "_NUM_PRIM+256.., 0x7fffff")
 ASSUMPTIONS = ["gcc -std=gnu11 with <stdint.h> <stddef.h> <sys/types.h> <wchar.h> <uchar.h> <stdbool.h> <complex.h> "
                "is the platform compiler (thorough: clang must agree, else the name is not judged); _cffi_{float,double}_complex_t are float/double _Complex as in _cffi_include.h",
                "plain 'char' is a character type in cffi: int() of it is the byte value 0..255 (documented character "
                "semantics), so its signedness is not compared with the compiler's; wchar_t's is",
                "a spelling that gcc rejects has no compiler facts: a cffi path accepting it is counted, not judged "
                "(parser strictness is another property); the paths that accept it must still agree on the ctype",
-               "a valid C spelling that a cffi parser rejects (e.g. 'int long') is counted, not judged"]
+               "a valid C spelling that every cffi parser rejects (e.g. 'int long') is counted, not judged; one that "
+               "the Python parser or the C parser accepts must be accepted by the other too",
+               "libffi (x86-64, >= 3.2) widens an integer argument to the full register according to the ffi_type "
+               "it is given (sign-extends sint8/16/32, zero-extends the others): a callee declared with a "
+               "'long long' parameter therefore sees whether the ffi_type stored for an integer ctype has the "
+               "compiler's size and signedness; only integer and _Bool types are judged that way, character types "
+               "(byte / code point semantics in cffi) are not",
+               "complex types cannot be passed through libffi by cffi (NotImplementedError): counted, not judged"]
 
 KW = ['signed', 'unsigned', 'short', 'long', 'int', 'char', 'float', 'double', '_Bool', '_Complex']
 INTKW = ['signed', 'unsigned', 'short', 'long', 'int', 'char']
@@ -76,7 +97,10 @@ def near_misses(idents, chars):
             if i < len(w):
                 out.append(w[:i] + w[i + 1:])
                 out.append(w[:i] + w[i] + w[i:])
-    return out
+                if w[i].swapcase() != w[i]:
+                    out.append(w[:i] + w[i].swapcase() + w[i + 1:])
+        out += [w.upper(), w.lower(), w.capitalize()]
+    return [n for n in out if n not in idents]
 
 
 def is_ident(name):
@@ -85,7 +109,9 @@ def is_ident(name):
 
 def name_set(tables, thorough):
     tnames = list(tables['all_prim']) + list(tables['prim_to_index']) + list(tables['common'])
-    idents = sorted(set(n for n in tnames if is_ident(n)))
+    # the table identifiers and the specifier keywords themselves (a tokenizer that takes
+    # 'longx' or 'Long' for 'long' accepts a name that is in no table)
+    idents = sorted(set(n for n in tnames if is_ident(n)) | set(KW))
     seen, out = set(), []
     for n in tnames + spellings(thorough) + near_misses(idents, 'x_1t' if thorough else 'x1'):
         if n not in seen:
@@ -189,8 +215,23 @@ def gcc_facts(tmp, names, tag=0, compiler='gcc'):
 # ---------------------------------------------------------------------------
 # parent: names -> oracle -> modules -> cases
 
-def build_setup(ctx, mod_names, gcc_ok):
+def build_calls_so(ctx, d, so_names):
+    """A gcc-built library with, per name, `T c06_id_k(T x) { return x; }`, and one
+    `long long c06_wide(long long)`: the callees of the libffi observations."""
+    os.makedirs(d, exist_ok=True)
+    src = [HEADERS, CPLX, 'long long c06_wide(long long x) { return x; }\n']
+    for k, n in enumerate(so_names):
+        src.append('typedef %s S_%d;\nS_%d c06_id_%d(S_%d x) { return x; }\n' % (n, k, k, k, k))
+    out = os.path.join(d, 'libc06calls.so')
+    rc, msg = cc.compile_c(ctx.tmp, ''.join(src), out, shared=True)
+    if rc != 0:
+        raise core.Inconclusive('the call library does not compile: ' + msg[-1500:])
+    return out
+
+
+def build_setup(ctx, mod_names, gcc_ok, so_names=()):
     d = os.path.join(ctx.tmp, 'mods')
+    so = build_calls_so(ctx, d, list(so_names))
     cdef = ''.join('typedef %s t_%d;\n' % (n, k) for k, n in enumerate(mod_names))
     # the C side declares the same typedefs where gcc knows the spelling
     csrc = HEADERS + ''.join('typedef %s t_%d;\n' % (n, k) for k, n in enumerate(mod_names)
@@ -203,7 +244,7 @@ def build_setup(ctx, mod_names, gcc_ok):
         if not r['ok']:
             raise core.Inconclusive('module %s does not build: %s %s' %
                                     (s['name'], r['error'][-800:], r.get('log', '')[-800:]))
-    return {'dir': d, 'mod_names': mod_names}
+    return {'dir': d, 'mod_names': mod_names, 'so': so, 'so_names': list(so_names)}
 
 
 def generate(ctx):
@@ -220,7 +261,9 @@ def generate(ctx):
     names = prep['names']
     ok = sum(_par(gcc_accepts, ctx.tmp, names), [])
     with cf.ThreadPoolExecutor(max_workers=1) as ex:      # modules and fact probes side by side
-        fut = ex.submit(build_setup, ctx, prep['inline_accepts'], set(ok))
+        okset = set(ok)
+        fut = ex.submit(build_setup, ctx, prep['inline_accepts'], okset,
+                        [n for n in sorted(prep['tables']['all_prim']) if n in okset])
         facts = {}
         for d in _par(gcc_facts, ctx.tmp, ok):
             facts.update(d)
@@ -242,6 +285,7 @@ def generate(ctx):
     ctx.count('names_iso_spelling_permutations', len(set(sum(
         [[' '.join(p) for p in itertools.permutations(s.split())] for s in ISO], []))))
     ctx.count('module_typedefs', len(setup['mod_names']))
+    ctx.count('call_library_functions', len(setup['so_names']))
     acc = set(setup['mod_names'])
     ctx.extra['inline_accepts_gcc_rejects_examples'] = sorted(acc - set(ok))[:12]
     ctx.extra['gcc_accepts_inline_rejects_examples'] = sorted(set(ok) - acc)[:12]
@@ -256,10 +300,11 @@ def generate(ctx):
 
 def replay_setup(ctx, case):
     names = [it[0] for it in case.get('items', [])]
+    ok = [it[0] for it in case.get('items', []) if it[1]]
     try:
-        return build_setup(ctx, names, set(it[0] for it in case.get('items', []) if it[1]))
+        return build_setup(ctx, names, set(ok), ok)
     except core.Inconclusive:       # the in-line parser rejects the name: no typedef paths
-        return build_setup(ctx, [], set())
+        return build_setup(ctx, [], set(), ok)
 
 
 # ---------------------------------------------------------------------------
@@ -281,7 +326,9 @@ def child_setup(setup, wd):
         tds.append(td)
     return {'B': _cffi_backend, 'inline': FFI(), 'td': tds, 'cparser': _cffi_backend.FFI(),
             'abi': _c06abi.ffi, 'api': _c06api.ffi,
-            'tk': {n: k for k, n in enumerate(setup['mod_names'])}}
+            'tk': {n: k for k, n in enumerate(setup['mod_names'])},
+            'lib': _cffi_backend.load_library(setup['so'], 0),
+            'so_k': {n: k for k, n in enumerate(setup.get('so_names', []))}, 'called': set()}
 
 
 def kind_of(B, v):
@@ -349,6 +396,113 @@ def check_facts(B, rep, name, ct, g, path):
             bad('float-precision', 'complex(cast(T, %r-%rj)) = %r' % (V, V, c))
 
 
+def check_calls(st, rep, name, ct, g):
+    """The libffi type stored with the ctype, observed from gcc-compiled callees."""
+    B = st['B']
+    k = st['so_k'].get(name)
+    if k is None or name != ct.cname or name in st['called']:
+        return
+    st['called'].add(name)
+
+    def bad(mech, msg):
+        rep.bad(mech, "'%s' through a libffi call: %s; gcc says %s" % (name, msg, g), name)
+    size = g['size']
+    cls = 'c' if (name in CHARKINDS and g['cls'] == 'i') else g['cls']
+    if cls in 'ib':
+        lo, hi = (-g['smax'] - 1, g['smax']) if g['neg'] else (0, g['umax'])
+        pat = int.from_bytes(bytes(0x11 * (j + 1) for j in range(size)), 'big')
+        vals = [lo, hi, 0] + ([pat, hi - pat] if cls == 'i' else []) + ([-1, -pat] if g['neg'] else [])
+        conv = lambda r: r
+    elif cls == 'c':
+        vals = [b'\x00', b'A', b'\xff'] if name == 'char' else \
+            ['\x00', 'A', '\uffff'] + (['\U0010ffff'] if size == 4 else [])
+        conv = lambda r: r
+    elif cls == 'f':
+        vals = [0.0, -1.5, V]
+        conv = float
+    else:
+        vals = [complex(V, -V)]
+        conv = complex
+    want = {v: v for v in vals}
+    if cls in 'fj':
+        want[V] = g['fr']
+        want[complex(V, -V)] = complex(g['fr'], -g['fr'])
+    try:
+        fid = st['lib'].load_function(B.new_function_type((ct,), ct, False), 'c06_id_%d' % k)
+        got = [conv(fid(v)) for v in vals]
+    except NotImplementedError as e:
+        if cls == 'j':
+            rep.stat('ffi_call_complex_not_supported')
+        else:
+            bad('ffi-call:raised', 'T f(T) raised NotImplementedError: %s' % e)
+        return
+    rep.stat('ffi_call_identity_types')
+    rep.stat('ffi_call_identity_' + cls)
+    for v, r in zip(vals, got):
+        rep.stat('ffi_call_identity_values')
+        if r != want[v] or type(r) is not type(want[v]) and cls != 'b':
+            bad('ffi-call:identity', 'T f(T x) { return x; } called with %r returns %r' % (v, r))
+    if cls in 'ib':
+        LL = B.new_primitive_type('long long')
+        fw = st['lib'].load_function(B.new_function_type((ct,), LL, False), 'c06_wide')
+        rep.stat('ffi_call_widening_types')
+        for v in vals:
+            r = fw(v)
+            rep.stat('ffi_call_widening_values')
+            if r != (v if v < 2 ** 63 else v - 2 ** 64):
+                bad('ffi-call:argument-widening', 'long long f(long long) called as long long f(T) with '
+                    '%d sees %d' % (v, r))
+
+
+def check_entry_points(st, rep, name, ct, g, got):
+    """sizeof / alignof through every entry point that takes this type."""
+    B = st['B']
+    want = (g['size'], g['align'])
+    ptr = B.new_pointer_type(ct)
+    zero = B.cast(ct, 0)
+    arr = B.newp(B.new_array_type(ptr, 3))
+    obs = [('backend sizeof(cast cdata)', (B.sizeof(zero), g['align'])),
+           ('backend sizeof(array cdata)/3', (B.sizeof(arr) / 3, g['align'])),
+           ('backend sizeof(array ctype)/3', (B.sizeof(B.new_array_type(ptr, 3)) / 3,
+                                              B.alignof(B.new_array_type(ptr, 3))))]
+    for p, key in (('inline', 'inline'), ('cparser', 'cparser'), ('abi', 'abi_parse'), ('api', 'api_parse')):
+        ffi = st[p]
+        if key in got:
+            obs.append(("%s.sizeof/alignof('%s')" % (p, name), (ffi.sizeof(name), ffi.alignof(name))))
+            obs.append(("%s.sizeof/alignof('%s[3]')" % (p, name),
+                        (ffi.sizeof(name + '[3]') / 3, ffi.alignof(name + '[3]'))))
+        obs.append(('%s.sizeof/alignof(ctype)' % p, (ffi.sizeof(ct), ffi.alignof(ct))))
+        obs.append(('%s.sizeof(cast cdata)' % p, (ffi.sizeof(zero), g['align'])))
+        obs.append(('%s.sizeof(array cdata)/3' % p, (ffi.sizeof(arr) / 3, g['align'])))
+    for what, val in obs:
+        rep.stat('sizeof_alignof_entry_points')
+        if val != want:
+            rep.bad('sizeof:entry-point', "%s = %r for '%s' (ctype '%s'); gcc says %s" %
+                    (what, val, name, ct.cname, g), name)
+
+
+def check_model(st, rep, name, ct, g):
+    """model.PrimitiveType's kind predicates (the code generators branch on
+    them) against the compiler's class of the type."""
+    from cffi import model
+    try:
+        tp, quals = st['inline']._parser.parse_type_and_quals(name)
+    except Exception:
+        rep.stat('model_type_not_available')
+        return
+    rep.stat('model_predicate_checks')
+    if not isinstance(tp, model.PrimitiveType) or tp.name != ct.cname:
+        rep.bad('model-kind', "the model type of '%s' is %r, the ctype is '%s'" % (name, tp, ct.cname), name)
+        return
+    cls = 'c' if (ct.cname in CHARKINDS and g['cls'] == 'i') else g['cls']
+    want = (cls == 'c', cls in 'ib', cls == 'f', cls == 'j')
+    have = (bool(tp.is_char_type()), bool(tp.is_integer_type()), bool(tp.is_float_type()),
+            bool(tp.is_complex_type()))
+    if have != want:
+        rep.bad('model-kind', "model.PrimitiveType('%s'): (is_char_type, is_integer_type, is_float_type, "
+                "is_complex_type) = %r; for gcc the class of '%s' is %r" % (tp.name, have, name, cls), name)
+
+
 def resolve(st, path, name):
     if path == 'inline':
         return st['inline'].typeof(name)
@@ -403,6 +557,17 @@ def names_case(st, case, rep):
             for path in got:
                 rep.bad('identifier-outside-tables:' + path, "'%s' is in no Python table but %s resolves "
                         "it to '%s'" % (name, path, got[path].cname), name)
+        if g:
+            # a name that is a type for the compiler and that one of the two parsers takes is in the
+            # property's domain: it must denote that ctype through the other parser too
+            pp = ('inline', 'cparser', 'abi_parse', 'api_parse')
+            rep.stat('valid_c_parser_agreement_checks')
+            if any(p in got for p in pp):
+                for p in pp:
+                    if p not in got:
+                        rep.bad('valid-name-rejected:' + p, "'%s' is a type for gcc and resolves to '%s' via %s, "
+                                'but %s does not resolve it' % (name, got[[q for q in pp if q in got][0]].cname,
+                                                                [q for q in pp if q in got][0], p), name)
         if g and not got:
             rep.stat('valid_c_rejected_by_every_path')
         if g and 'inline' not in got:
@@ -457,6 +622,10 @@ def names_case(st, case, rep):
                     if p in got and (st[p].sizeof(name), st[p].alignof(name)) != (g['size'], g['align']):
                         rep.bad('sizeof', "%s: ffi.sizeof/alignof('%s') = %r; gcc says %s" %
                                 (p, name, (st[p].sizeof(name), st[p].alignof(name)), g), name)
+                check_entry_points(st, rep, name, ct, g, got)
+                if 'inline' in got and got['inline'] is ct:
+                    check_model(st, rep, name, ct, g)
+                check_calls(st, rep, name, ct, g)
 
 
 def tables_case(st, rep):
@@ -491,23 +660,27 @@ def tables_case(st, rep):
     for n in ALL:
         if n.endswith('_t') and commontypes.COMMON_TYPES.get(n) != n:
             rep.bad('tables:common-types', "'%s' is missing from COMMON_TYPES" % n, 'tables')
-    hi = N + 4
+    # every index of the table, the first ones past its end, indexes that alias a valid one
+    # when truncated to 8 or 16 bits, the largest/smallest 24-bit arguments, and the negative
+    # ones (-1..-3 are the "unknown size" markers of compiled modules: errors, never a type)
+    idxs = list(range(N + 4)) + [N + 256, 256 + 7, 65536 + 7, 0x7fffff, -1, -2, -3, -4, -0x800000]
     types = b''.join((((i << 8) | cffi_opcode.OP_PRIMITIVE) & 0xffffffff).to_bytes(4, 'big')
-                     for i in range(hi))
+                     for i in idxs)
     sweep = B.FFI('_c06sweep', _version=0x2601, _types=types,
-                  _typenames=tuple(i.to_bytes(4, 'big') + b'p_%02d' % i for i in range(hi)))
+                  _typenames=tuple(pos.to_bytes(4, 'big') + b'p_%03d' % pos for pos in range(len(idxs))))
     inline = st['inline']
-    for i in range(hi):
+    for pos, i in enumerate(idxs):
         rep.case(('index', i), sample={'index': i, 'python_name': inv.get(i)})
         try:
-            ct = sweep.typeof('p_%02d' % i)
+            ct = sweep.typeof('p_%03d' % pos)
         except Exception as e:
             ct = None
             exc = type(e).__name__
         rep.stat('index_sweep')
-        if i >= N:
+        if i >= N or i < 0:
+            rep.stat('index_sweep_out_of_range')
             if ct is not None:
-                rep.bad('tables:out-of-range-index', "index %d >= _NUM_PRIM realizes to '%s'" %
+                rep.bad('tables:out-of-range-index', "index %d outside 0.._NUM_PRIM-1 realizes to '%s'" %
                         (i, ct.cname), 'tables')
             continue
         want = 'void' if i == 0 else inv.get(i)
